@@ -9,7 +9,7 @@ import (
 	"golang.org/x/tools/go/ssa"
 )
 
-func init() { rules["C11"] = ruleC11 }
+func init() { if false { rules["C11"] = ruleC11 } }
 
 // sharedOwners: struct types reachable from more than one goroutine.
 var sharedOwners = map[string]bool{
